@@ -6,7 +6,7 @@ from vlib.framework import Family
 from vlib import coqlit as L
 
 PID = "C18"
-PROP_FILES = ["Prop", "PropHist"]
+PROP_FILES = ["Prop", "PropHist", "PropSrc"]
 EXTRA_COQ_DIRS = ["C08"]
 # Flocq's binary32/binary64 formats are defined over Coq's axiomatic reals (only the f/d theorems depend on them)
 ALLOWED_AXIOMS = [r"ClassicalDedekindReals\.sig_not_dec$", r"ClassicalDedekindReals\.sig_forall_dec$",
@@ -24,7 +24,13 @@ RULE = ("chunks: size 1..9 x length 0..20 x format b h i f d x byte order None/<
         "2-4 chunks calls (other size / pad / strategy / byte order; reached as chunks[name], chunks.name, chunks(); "
         "keyword / positional / defaults left out; size=None), sequentially or with the generators alive together and "
         "consumed alternately; the object is read again after the calls and the yielded chunk objects are re-read at the "
-        "end; non-trivial = padded tail in the first call and a later call on the same object")
+        "end; a call refused for its pad value and the user-set chunks.default / chunks.size are part of the histories; "
+        "non-trivial = padded tail in the first call and a later call on the same object; wavsrc: the wave_file "
+        "argument as file name (str), open file on disk, BytesIO, pipe (os.fdopen, not seekable), object with only "
+        "read(), every width x mono/stereo, the object standing at the offset where the wave data starts after "
+        "nothing / another wave file with another header / junk bytes, and followed by nothing / a wave file / junk "
+        "(bytes and pathlib paths and wave.Wave_read objects are refused by the unchanged code: AttributeError, left "
+        "out); non-trivial = an object standing at a non-zero offset, >= 2 samples")
 EXHAUSTIVE = {"quick": False, "thorough": False}
 trusted_base = ["native byte order of the machine running the check is little-endian (checked at run time); the struct marks "
                 "'!' / '=' / '@' are mapped to the model's Big / Little / Native (struct documents '!' = big-endian, '=' = native "
@@ -32,7 +38,10 @@ trusted_base = ["native byte order of the machine running the check is little-en
                 "struct.pack / array / wave module of CPython are the reference for the byte formats",
                 "Flocq 'binary_normalize' with mode_NE models the double->single conversion of struct 'f'",
                 "wavhist: 'file closed' = .closed of every file object created by builtins.open (wrapped during the run) for "
-                "the stream's path; deletion = dropping all references + gc.collect() on CPython"]
+                "the stream's path; deletion = dropping all references + gc.collect() on CPython",
+                "wavsrc: the reader is modelled as a parser of the canonical 44-byte header the standard wave module writes "
+                "(the Coq header writer is compared byte for byte with wave.Wave_write on every case); nothing is demanded "
+                "about closing a caller-owned object (the unchanged code leaves it open: observed in the correspondence)"]
 ASSUMPTIONS = ["WAV files contain whole frames only",
                "histories: the harness itself never mutates an object between the calls, so every call on a re-iterable "
                "object is held against the object's ORIGINAL contents (a call that changes its argument shows in the next one)"]
@@ -213,6 +222,8 @@ def nontrivial_wav(c, o):
 IMPORTS = "From AL Require Import C18.Model C18.Spec C18.Check.\nOpen Scope Z_scope."
 IMPORTS_H = "From AL Require Import C18.Model C18.Spec C18.Check C18.Hist.\nOpen Scope Z_scope."
 import C18_hist as H
+import C18_src as S
+IMPORTS_S = "From AL Require Import C18.Model C18.Spec C18.Check C18.Src.\nOpen Scope Z_scope."
 FAMILIES = {
   "chunks": Family("chunks", IMPORTS, "ccase", "corr_chunks", "holds_chunks", gen_chunks, run_chunks, lit_chunks,
                    nontrivial_chunks, known_chunks),
@@ -220,6 +231,9 @@ FAMILIES = {
   # several live streams pulled alternately; file-handle state after every pull and after deletion
   "wavhist": Family("wavhist", IMPORTS_H, "hcase", "corr_wavhist", "holds_wavhist", H.gen_wavhist, H.run_wavhist,
                     H.lit_wavhist, H.nontrivial_wavhist),
+  # the wave_file argument: name / file on disk / BytesIO / pipe / read()-only object, standing where the data starts
+  "wavsrc": Family("wavsrc", IMPORTS_S, "scase", "corr_wavsrc", "holds_wavsrc", S.gen_wavsrc, S.run_wavsrc, S.lit_wavsrc,
+                   S.nontrivial_wavsrc),
   # every kind of caller's object, used again in later calls (other size / pad / strategy / order)
   "ckinds": Family("ckinds", IMPORTS_H, "kcase", "corr_ckinds", "holds_ckinds", H.gen_ckinds, H.run_chist, H.lit_chist,
                    H.nontrivial_chist),
